@@ -1,6 +1,6 @@
 (* C16 proofs, part 3: the model meets the executable SPEC (the checkers that the runner applies to the
    implementation's observations), at the level of typed cases and at the level of the token wire format. *)
-From V Require Import C16.Glue C16.ProofsHex C16.Proofs.
+From V Require Import C16.Glue C16.ProofsHex C16.Proofs C16.ProofsInto.
 From Coq Require Import Lia.
 
 (* ------------------------------------------------------------------ soundness of the "documented header" recognisers *)
@@ -163,40 +163,89 @@ Proof.
   destruct k; rewrite V; reflexivity.
 Qed.
 
+Lemma spec_roundtrip_nm_agrees : forall nm c c' s, ctx_valid c = true ->
+  agrees c' (c_tid c) (c_sid c) (sampled_bit (c_flags c)) ->
+  spec_roundtrip_nm nm c (Some (obs_of c')) s = [].
+Proof.
+  intros nm c c' s V [A1 [A2 [A3 A4]]]. unfold spec_roundtrip_nm. rewrite V.
+  cbn [obs_of o_tid o_sid o_flags o_remote].
+  rewrite A1, A2, A3, A4, !bytes_eqb_refl, Bool.eqb_reflx. reflexivity.
+Qed.
+
 Lemma model_meets_spec_roundtrip_lemma : forall k c, wf_ctx c ->
   spec_roundtrip k c (option_map obs_of (roundtrip k c)) true = [].
 Proof.
   intros k c W. unfold spec_roundtrip. destruct (ctx_valid c) eqn:V.
-  - destruct (roundtrip_all k c W V) as [c' [E [A1 [A2 [A3 A4]]]]]. rewrite E.
-    cbn [option_map obs_of o_tid o_sid o_flags o_remote].
-    rewrite A1, A2, A3, A4, !bytes_eqb_refl, Bool.eqb_reflx. reflexivity.
-  - rewrite (roundtrip_invalid k c V). reflexivity.
+  - destruct (roundtrip_all k c W V) as [c' [E A]]. rewrite E. cbn [option_map].
+    apply spec_roundtrip_nm_agrees; assumption.
+  - rewrite (roundtrip_invalid k c V). unfold spec_roundtrip_nm. rewrite V. reflexivity.
+Qed.
+
+(* Extract into any destination context *)
+Lemma model_meets_spec_into_lemma : forall x c d n, wf_ctx c -> n <= 9 ->
+  spec_roundtrip_into x c n
+    (option_map obs_of (observed_span (make_dest d n) (roundtrip_into x c (make_dest d n)))) true
+    (Z.of_nat (keys_intact n (roundtrip_into x c (make_dest d n)))) = [].
+Proof.
+  intros x c d n W Hn. unfold spec_roundtrip_into. destruct (ctx_valid c) eqn:V.
+  - destruct (roundtrip_into_valid_lemma x c (make_dest d n) W V) as [A [L P]].
+    rewrite (keys_intact_preserved n _ _ P), (keys_intact_dest n d Hn), Z.eqb_refl.
+    unfold observed_span. destruct (Nat.eqb_spec (length (roundtrip_into x c (make_dest d n))) (length (make_dest d n))) as [C|_]; [lia|].
+    cbn [option_map]. rewrite (spec_roundtrip_nm_agrees _ c _ true V A). reflexivity.
+  - rewrite (roundtrip_into_invalid_lemma x c _ V), (keys_intact_dest n d Hn), Z.eqb_refl.
+    unfold observed_span. rewrite Nat.eqb_refl. cbn [option_map].
+    unfold spec_roundtrip_nm. rewrite V. reflexivity.
 Qed.
 
 (* ------------------------------------------------------------------ token level: run_spec on run_model *)
 Definition wf_case (c : case) : Prop :=
-  match c with CRt _ x => wf_ctx x | _ => True end.
+  match c with CRt _ x => wf_ctx x | CRtD _ x _ n => wf_ctx x /\ n <= 9 | _ => True end.
 
-Lemma model_meets_spec_case : forall c, wf_case c ->
-  exists o, (forall rest, parse_ext (model_case c ++ rest) = Some (option_map obs_of o, match o with None => true | Some _ => false end))
-            /\ spec_case c (option_map obs_of o) true = [].
+Definition same_flag (o : option span_ctx) : bool := match o with None => true | Some _ => false end.
+
+Lemma parse_ext_print : forall o rest, parse_ext (print_ext o ++ rest) = Some (option_map obs_of o, same_flag o).
 Proof.
-  assert (P : forall o rest, parse_ext (print_ext o ++ rest) =
-                             Some (option_map obs_of o, match o with None => true | Some _ => false end)).
-  { intros [c|] rest; [|reflexivity].
-    cbn [print_ext app parse_ext tag]. change (bytes_eqb (bs "OK") (bs "OK")) with true. cbv iota.
-    cbn [option_map]. unfold obs_of, tbool. rewrite N2Z.id, n2b_b2n. destruct (c_remote c); reflexivity. }
-  intros [k x|b3 xt xs xf|h] W; cbn [model_case spec_case].
-  - exists (roundtrip k x). split; [|apply model_meets_spec_roundtrip_lemma; exact W].
-    intro rest. rewrite <- app_assoc. apply P.
-  - exists (b3_extract b3 xt xs xf). split; [apply P|apply model_meets_spec_b3_lemma].
-  - exists (jaeger_extract h). split; [apply P|apply model_meets_spec_jaeger_lemma].
+  intros [c|] rest; [|reflexivity].
+  cbn [print_ext app parse_ext tag]. change (bytes_eqb (bs "OK") (bs "OK")) with true. cbv iota.
+  cbn [option_map same_flag]. unfold obs_of, tbool. rewrite N2Z.id, n2b_b2n. destruct (c_remote c); reflexivity.
 Qed.
 
-Lemma spec_case_same : forall c x s, spec_case c (Some x) s = spec_case c (Some x) true.
+Lemma parse_obs_print : forall o rest, parse_obs (print_ext o ++ rest) = Some (option_map obs_of o, same_flag o, 0%Z).
 Proof.
-  intros [k cx|b3 xt xs xf|h] x s; cbn [spec_case]; [|reflexivity|reflexivity].
-  unfold spec_roundtrip. destruct (ctx_valid cx); reflexivity.
+  intros [c|] rest; [|reflexivity].
+  change (parse_obs (print_ext (Some c) ++ rest))
+    with (match parse_ext (print_ext (Some c) ++ rest) with Some (o, same) => Some (o, same, 0%Z) | None => None end).
+  rewrite parse_ext_print. reflexivity.
+Qed.
+
+Lemma parse_obs_print_k : forall k o rest,
+  parse_obs (tag "K" :: tnat k :: print_ext o ++ rest) = Some (option_map obs_of o, same_flag o, Z.of_nat k).
+Proof.
+  intros k o rest.
+  change (parse_obs (tag "K" :: tnat k :: print_ext o ++ rest))
+    with (match parse_ext (print_ext o ++ rest) with Some (o, same) => Some (o, same, Z.of_nat k) | None => None end).
+  rewrite parse_ext_print. reflexivity.
+Qed.
+
+Lemma model_meets_spec_case : forall c, wf_case c ->
+  exists o intact, (forall rest, parse_obs (model_case c ++ rest) = Some (option_map obs_of o, same_flag o, intact))
+                   /\ spec_case c (option_map obs_of o) true intact = [].
+Proof.
+  intros [k x|b3 xt xs xf|h|x cx d n] W; cbn [model_case spec_case].
+  - exists (roundtrip k x), 0%Z. split; [|apply model_meets_spec_roundtrip_lemma; exact W].
+    intro rest. rewrite <- app_assoc. apply parse_obs_print.
+  - exists (b3_extract b3 xt xs xf), 0%Z. split; [intro; apply parse_obs_print|apply model_meets_spec_b3_lemma].
+  - exists (jaeger_extract h), 0%Z. split; [intro; apply parse_obs_print|apply model_meets_spec_jaeger_lemma].
+  - destruct W as [W Hn].
+    exists (observed_span (make_dest d n) (roundtrip_into x cx (make_dest d n))),
+           (Z.of_nat (keys_intact n (roundtrip_into x cx (make_dest d n)))).
+    split; [|apply model_meets_spec_into_lemma; assumption].
+    intro rest. unfold model_rtd. cbn [app]. rewrite <- app_assoc. apply parse_obs_print_k.
+Qed.
+
+Lemma spec_case_same : forall c x s i, spec_case c (Some x) s i = spec_case c (Some x) true i.
+Proof.
+  intros [k cx|b3 xt xs xf|h|xk cx d n] x s i; reflexivity.
 Qed.
 
 Lemma parse_ctx_wf : forall l c, parse_ctx l = Some c -> wf_ctx c.
@@ -209,33 +258,63 @@ Proof.
   injection H as H. subst c. apply Nat.eqb_eq in L1. apply Nat.eqb_eq in L2. split; assumption.
 Qed.
 
+Lemma parse_nkeys_le : forall z n, parse_nkeys z = Some n -> n <= 9.
+Proof.
+  intros z n H. unfold parse_nkeys in H.
+  destruct (Z.leb_spec 0 z) as [A|_]; [|discriminate H].
+  destruct (Z.leb_spec z 9) as [B|_]; [|discriminate H].
+  cbn [andb] in H. injection H as H. subst n. lia.
+Qed.
+
+Lemma parse_rtd_wf : forall k rest c, parse_rtd k rest = Some c -> wf_case c.
+Proof.
+  intros k rest c H. unfold parse_rtd in H.
+  destruct (parse_xkind k) as [x|]; [|discriminate H].
+  destruct (parse_ctx (firstn 5 rest)) as [cx|] eqn:E; [|discriminate H].
+  destruct (skipn 5 rest) as [|sp rest']; [discriminate H|].
+  destruct (is_tag "NOSPAN" sp).
+  - destruct rest' as [|[|z|] [|]]; try discriminate H.
+    destruct (parse_nkeys z) as [n|] eqn:N; [|discriminate H].
+    cbn [option_map] in H. injection H as H. subst c.
+    split; [exact (parse_ctx_wf _ _ E)|exact (parse_nkeys_le z n N)].
+  - destruct (is_tag "SPAN" sp); [|discriminate H].
+    destruct (parse_ctx (firstn 5 rest')) as [dx|]; [|discriminate H].
+    destruct (skipn 5 rest') as [|[|z|] [|]]; try discriminate H.
+    destruct (parse_nkeys z) as [n|] eqn:N; [|discriminate H].
+    cbn [option_map] in H. injection H as H. subst c.
+    split; [exact (parse_ctx_wf _ _ E)|exact (parse_nkeys_le z n N)].
+Qed.
+
 Lemma parse_case_wf : forall l c, parse_case l = Some c -> wf_case c.
 Proof.
-  intros l c H. destruct c as [k x| |]; cbn [wf_case]; [|exact I|exact I].
-  unfold parse_case in H. destruct l as [|t [|kt rest]]; try discriminate H.
+  intros l c H. unfold parse_case in H. destruct l as [|t [|kt rest]]; try discriminate H.
+  destruct (is_tag "RTD" t); [exact (parse_rtd_wf kt rest c H)|].
   destruct (is_tag "RT" t).
   - destruct (parse_kind kt); [|discriminate H].
     destruct (parse_ctx rest) as [c'|] eqn:E; [|discriminate H].
-    injection H as H1 H2. subst c'. exact (parse_ctx_wf rest x E).
+    injection H as H. subst c. exact (parse_ctx_wf rest c' E).
   - destruct (is_tag "EXT" t); [|discriminate H].
     destruct (is_tag "B" kt).
-    + destruct rest as [|a [|b [|c [|d [|]]]]]; try discriminate H.
-      destruct (opt_bytes a), (opt_bytes b), (opt_bytes c), (opt_bytes d); discriminate H.
+    + destruct rest as [|a [|b [|c0 [|d [|]]]]]; try discriminate H.
+      destruct (opt_bytes a), (opt_bytes b), (opt_bytes c0), (opt_bytes d); try discriminate H.
+      injection H as H. subst c. exact I.
     + destruct (is_tag "J" kt); [|discriminate H].
-      destruct rest as [|a [|]]; try discriminate H. destruct (opt_bytes a); discriminate H.
+      destruct rest as [|a [|]]; try discriminate H. destruct (opt_bytes a); [|discriminate H].
+      injection H as H. subst c. exact I.
 Qed.
 
 (* every parsable case line: the SPEC run on the model's own output line reports no failed clause *)
 Lemma model_meets_spec_lemma : forall l, parse_case l <> None -> run_spec l (run_model l) = [].
 Proof.
   intros l H. unfold run_spec, run_model. destruct (parse_case l) as [c|] eqn:E; [|contradiction].
-  destruct (model_meets_spec_case c (parse_case_wf l c E)) as [o [P S]].
+  destruct (model_meets_spec_case c (parse_case_wf l c E)) as [o [i [P S]]].
   specialize (P []). rewrite app_nil_r in P. rewrite P.
-  destruct o as [x|]; cbn [option_map] in *; [rewrite spec_case_same|]; exact S.
+  destruct o as [x|]; cbn [option_map same_flag] in *; [rewrite spec_case_same|]; exact S.
 Qed.
 
 Example model_meets_spec_nonvacuous :
   parse_case [tag "RT"; tag "M"; TB ex_tid; TB ex_sid; TZ 255; TZ 0; TB []] <> None /\
+  parse_case [tag "RTD"; tag "C"; TB ex_tid; TB ex_sid; TZ 1; TZ 0; TB []; tag "SPAN"; TB ex_tid; TB ex_sid; TZ 1; TZ 0; TB []; TZ 2] <> None /\
   parse_case [tag "EXT"; tag "B"; TB (bs "80f198ee56343ba8-e457b5a2e4d86bd1-d"); tag "NONE"; tag "NONE"; tag "NONE"] <> None /\
   doc_b3 (bs "80f198ee56343ba8-e457b5a2e4d86bd1-d") [] [] [] <> None /\
   doc_jaeger (bs "4bf92f3577b34da6:e457b5a2e4d86bd1:0:3") <> None.
